@@ -233,11 +233,30 @@ def build(spec, made=None):
         g = np.random.Generator(bg)
         for _ in range(spec[3]):
             g.random()
+        # optional 5th field: how many child generators were spawned (part of the seed sequence's state)
+        if len(spec) > 4 and spec[4]:
+            g.bit_generator.seed_seq.spawn(spec[4])
         return keep(g)
     if tag == "sparse":
         import scipy.sparse as sp
         rng = np.random.RandomState(spec[3])
         m = sp.random(spec[2][0], spec[2][1], density=0.3, random_state=rng, format="coo")
+        if len(spec) > 4 and spec[4] == "noncanonical":
+            # repeated coordinates / unsorted indices: a legal matrix that is not in canonical form
+            r0 = np.concatenate([m.row, m.row[:2], [0, 0]]).astype(m.row.dtype)
+            c0 = np.concatenate([m.col, m.col[:2], [0, 0]]).astype(m.col.dtype)
+            d0 = np.concatenate([m.data, m.data[:2] + 1.0, [1.0, 2.0]])
+            order = rng.permutation(len(d0))
+            m = sp.coo_matrix((d0[order], (r0[order], c0[order])), shape=m.shape)
+            if spec[1] in ("csr", "csc"):
+                # build the compressed form by hand so that duplicates and the unsorted order survive
+                cls = sp.csr_matrix if spec[1] == "csr" else sp.csc_matrix
+                major, minor = (m.row, m.col) if spec[1] == "csr" else (m.col, m.row)
+                o2 = np.argsort(major, kind="stable")
+                n_major = m.shape[0] if spec[1] == "csr" else m.shape[1]
+                indptr = np.concatenate([[0], np.cumsum(np.bincount(major, minlength=n_major))]).astype(np.int32)
+                return keep(cls((m.data[o2], minor[o2].astype(np.int32), indptr), shape=m.shape))
+            return keep(m)
         if spec[1].endswith("_array"):
             cls = getattr(sp, spec[1])
             return keep(cls(m))
